@@ -84,12 +84,12 @@ func runC03(c *core.Ctx) {
 	// ---------------- R2: decided-and-validated before post-consensus signing
 	decidedExit := "r0=true,r1=nonnil,err=nil"
 	ensures(c, "C03-R2", runnerPkg+".(*BaseRunner).baseConsensusMsgProcessing", decidedExit, []Req{
-		{"running-duty", "T(ssv/protocol/v2/ssv/runner.BaseRunner.hasRunningDuty(p0))", "a finished or absent duty must not sign"},
+		{"running-duty", "T(ssv/protocol/v2/ssv/runner.BaseRunner.hasRunningDuty@2(p0))", "a finished or absent duty must not sign (checked after the controller processed the message)"},
 		{"not-finished", "F(p0.State.Finished)", "hasRunningDuty must mean State.Finished==false"},
 		{"decided-correctly", "T(ssv/protocol/v2/ssv/runner.BaseRunner.didDecideCorrectly(p0, *ProcessMsg(p0.QBFTController, p1, p3)#0)#0)", "the decision must be checked against the running instance"},
 		{"decided-msg-nonnil", "nonnil(ssv/protocol/v2/qbft/controller.Controller.ProcessMsg(p0.QBFTController, p1, p3)#0)", "no decided message, no signature"},
 		{"running-instance", "nonnil(p0.State.RunningInstance)", "a decision without running instance is for another duty"},
-		{"height-match", "eq(ssv/protocol/v2/qbft/controller.Controller.ProcessMsg(p0.QBFTController, p1, p3)#0.Message.Height, ssv/protocol/v2/qbft/instance.Instance.GetHeight(p0.State.RunningInstance))", "decided height must be the running instance's height"},
+		{"height-match", "eq(ssv/protocol/v2/qbft/controller.Controller.ProcessMsg(p0.QBFTController, p1, p3)#0.Message.Height, p0.State.RunningInstance.State.Height)", "decided height must be the running instance's height"},
 		{"first-decision", "F(phi(false, ssv/protocol/v2/qbft/instance.Instance.IsDecided(p0.State.RunningInstance)#0))", "only the first decision of an instance may sign (at most once)"},
 		{"controller-accepted", "ok(ssv/protocol/v2/qbft/controller.Controller.ProcessMsg(p0.QBFTController, p1, p3))", "the controller must have accepted the message"},
 		{"decoded", "ok(ssv-spec/types.ConsensusData.Decode(*ProcessMsg(p0.QBFTController, p1, p3)#0.FullData))", "the signed object must be decoded from the decided message's data"},
@@ -192,12 +192,12 @@ func runC03(c *core.Ctx) {
 	if _, err := c.P.Func(valPkg + ".(*Validator).ProcessMessage"); err == nil {
 		n := 0
 		for _, m := range []struct{ callee, typ string }{
-			{"ssv/protocol/v2/ssv/runner.Runner.ProcessConsensus", "eq(0:MsgType, ssv-spec/types.SSVMessage.GetType(p2.SSVMessage))"},
+			{"ssv/protocol/v2/ssv/runner.Runner.ProcessConsensus", "eq(0:MsgType, p2.SSVMessage.MsgType)"},
 			{"ssv/protocol/v2/ssv/runner.Runner.ProcessPostConsensus", "eq(0:PartialSigMsgType, *.Message.Type)"},
 			{"ssv/protocol/v2/ssv/runner.Runner.ProcessPreConsensus", "ne(0:PartialSigMsgType, *.Message.Type)"},
 		} {
 			n += atCalls(c, "C03-R5", valPkg+".(*Validator).ProcessMessage", m.callee, []Req{
-				{"runner-for-id", "nonnil(ssv/protocol/v2/ssv/runner.DutyRunners.DutyRunnerForMsgID(p0.DutyRunners, ssv-spec/types.SSVMessage.GetID(p2.SSVMessage)))", "messages for a role without runner must not be processed"},
+				{"runner-for-id", "nonnil(ssv/protocol/v2/ssv/runner.DutyRunners.DutyRunnerForMsgID(p0.DutyRunners, p2.SSVMessage.MsgID))", "messages for a role without runner must not be processed"},
 				{"belongs-to-validator", "ok(ssv/protocol/v2/ssv/validator.validateMessage(*p0.Share.Share, p2))", "messages of other validators must not reach the runner"},
 				{"pubkey-check", "T(ssv-spec/types.ValidatorPK.MessageIDBelongs(*", "validateMessage must compare the message id with the validator key"},
 				{"type-dispatch", m.typ, "the message type must select the processing stage"},
